@@ -18,7 +18,7 @@ func init() {
 	core.Explanations["C18"] = "Decides necessary structural conditions of 'cluster-mode bidirectional units are single-slot or refused, never best-effort': " +
 		"(R18.1) the unit builder visits every command and every key (forward ranges over the whole slices), hashes each key with the module's slot function, and every failure edge (resolver error, unresolved, no keys, slot mismatch) returns an error; in cluster mode the slot mode is the zero mode (no forced slot, no cross-slot allowance); key resolution keeps every key position (no skipped keys); " +
 		"(R18.2) the unit's slot tag is BisyncSlotTag of the very slot stored in the unit; (R18.3) control keys are built with the unit's slot tag, constructor formats contain exactly one brace pair around the tag and brace-free literal parts; (R18.4) the cluster client re-validates: every key hashed, every refusal recorded, Dispatch returns the recorded error before anything is sent, strict key resolution; " +
-		"(R18.5) a unit is emitted only on the builder's success edge; (R18.6) the builder refuses for the listed reasons only (a unit whose keys share a slot is never refused). The slot function itself is C11."
+		"(R18.5) a unit is emitted only on the builder's success edge; (R18.6) the builder refuses for the listed reasons only (a unit whose keys share a slot is never refused). (R11.1-R11.5, shared with C11) the slot function used by the builder and the one used by the cluster client are both HASH_SLOT and agree, because a unit judged single-slot by a wrong slot function is not single-slot for the cluster."
 }
 
 const unitBuilder = "syncer.buildBisyncReplayUnitWithMode"
@@ -101,6 +101,12 @@ func c18(w *core.World, r *core.Report) {
 	if b != nil {
 		ruleRefusalReasons(w, r, b)
 	}
+
+	// "Single-slot" is judged by the builder with pkg/redis.KeyToSlot and by the
+	// client with its own hash(); a unit the builder accepts is single-slot for
+	// the cluster only if both are Redis Cluster's HASH_SLOT. The slot-function
+	// rules of C11 (R11.1-R11.5) are therefore obligations of C18 as well.
+	c11(w, r)
 }
 
 func extractOf(call ssa.Value, idx int) ssa.Value {
